@@ -146,7 +146,8 @@ def _outcome(ctx: Ctx, files: typing.Dict[str, str], what: str, extra_roots: typ
             raise
         except Exception as ex:  # pylint: disable=broad-except
             sig = crash_signature(ex)
-            if "Exceeds the limit (4300 digits) for integer string conversion" in str(ex):
+            chain = [ex, getattr(ex, "__cause__", None), getattr(getattr(ex, "__cause__", None), "__cause__", None)]
+            if any(c is not None and "Exceeds the limit (4300 digits)" in str(c) for c in chain) or "Exceeds%20the%20limit%20%284300%20digits%29" in str(ex):
                 sig = "crash:int-max-str-digits"  # one root cause, many call sites that format a huge integer
             raise Violation(sig, "InvalidDefinitionError or a model", "%s: %s" % (type(ex).__name__, str(ex)[:400]), "%s: %r" % (what, files)) from ex
     finally:
@@ -162,7 +163,10 @@ def _classify(kind: str, outcome: typing.Tuple[str, typing.Any], changed: bool) 
 
 def check_text(case: typing.Any, ctx: Ctx) -> Info:
     origin = case["origin"]
-    if isinstance(origin, int):
+    if origin == "raw":
+        base = ""
+        files = {ROOT + "/Dep.1.0.dsdl": DEP_TEXT}
+    elif isinstance(origin, int):
         base = CORPUS[origin % len(CORPUS)]
         files = {ROOT + "/Dep.1.0.dsdl": DEP_TEXT}
     else:
@@ -175,7 +179,7 @@ def check_text(case: typing.Any, ctx: Ctx) -> Info:
             files[ROOT + "/Dep.1.0.dsdl"] = DEP_TEXT
         finally:
             ctx.cleanup(scratch)
-    text = sanitize(mutate(base, case["ops"]))
+    text = sanitize(case["text"]) if origin == "raw" else sanitize(mutate(base, case["ops"]))
     if case["as_dependency"]:
         files[ROOT + "/dep/Y.1.0.dsdl"] = text
         files[ROOT + "/X.1.0.dsdl"] = "ns.dep.Y.1.0 y\n@sealed\n"
@@ -250,6 +254,18 @@ def _dir_name() -> st.SearchStrategy:
     )
 
 
+def fuzz_decode(data: bytes) -> typing.Any:
+    """First byte: flags (bit 0: offer the text as a dependency instead of as the target); the rest: UTF-8 text."""
+    if not data:
+        return None
+    text = data[1:].decode("utf-8", errors="ignore").replace("\r\n", "\n")
+    return {"origin": "raw", "text": text, "ops": [], "as_dependency": bool(data[0] & 1)}
+
+
+def fuzz_corpus(ctx: Ctx) -> typing.List[bytes]:
+    return [b"\x00" + t.encode() for t in CORPUS] + [b"\x01" + CORPUS[0].encode(), b"\x00@sealed\n"]
+
+
 def parts(ctx: Ctx) -> typing.List[Part]:
     op = st.one_of(
         st.tuples(st.sampled_from(["delete", "duplicate", "swap", "truncate"]), st.integers(0, 4000)),
@@ -269,8 +285,13 @@ def parts(ctx: Ctx) -> typing.List[Part]:
     )
     twin = st.one_of(st.none(), st.none(), st.fixed_dictionaries({"dirs": st.lists(st.sampled_from(["sub", "x"]), max_size=1), "kind": st.integers(0, 2), "body": st.integers(0, 2)}))
     name_cases = st.fixed_dictionaries({"entries": st.lists(st.tuples(st.lists(_dir_name(), max_size=2), _file_name()), min_size=0, max_size=3), "twin": twin})
-    return [
+    out = [
         Part("mutation", mutation_cases, check_text, weight=5),
         Part("targeted", targeted_cases, check_targeted, weight=3),
         Part("names", name_cases, check_names, weight=2),
     ]
+    if ctx.tier != "quick":
+        # coverage-guided (atheris / libFuzzer); even shards start from the corpus above, odd shards from an empty one
+        out.append(Part("fuzz-text", None, check_text, weight=6, fuzz_decode=fuzz_decode, fuzz_corpus=fuzz_corpus,
+                        fuzz_dict=[t for t in REPLACEMENTS if t.strip() and all(ord(c) < 128 for c in t)]))
+    return out
